@@ -105,13 +105,14 @@ Inductive directive :=
 
 Inductive obs :=
 | OInst (id : string) (subs : list sub) (resp : option response)
-| OExec (rs : option (list (list result))) (snap : db)
+| OExec (txns : list (list command)) (rs : option (list (list result))) (snap : db)
 | OStuck.
 
 Definition obs_eqb (a b : obs) : bool :=
   match a, b with
   | OInst i s r, OInst i' s' r' => String.eqb i i' && list_eqb sub_eqb s s' && opt_eqb response_eqb r r'
-  | OExec rs d, OExec rs' d' => opt_eqb (list_eqb (list_eqb result_eqb)) rs rs' && db_eqb d d'
+  | OExec tx rs d, OExec tx' rs' d' =>
+    list_eqb (list_eqb command_eqb) tx tx' && opt_eqb (list_eqb (list_eqb result_eqb)) rs rs' && db_eqb d d'
   | OStuck, OStuck => true
   | _, _ => false
   end.
@@ -266,10 +267,10 @@ Definition step (cfg : config) (s : sys) (d : directive) : option (sys * list ob
       match exec_batch (s_db s) txns with
       | Some (d', rss) =>
         Some (mkSys d' (s_now s) (s_group s) (s_insts s) (set_batch_ready batch (Some rss) (s_pend s)),
-              [OExec (Some rss) d'])
+              [OExec (map fst txns) (Some rss) d'])
       | None =>
         Some (mkSys (s_db s) (s_now s) (s_group s) (s_insts s) (set_batch_ready batch None (s_pend s)),
-              [OExec None (s_db s)])
+              [OExec (map fst txns) None (s_db s)])
       end
     end
   | DDrop id n =>
